@@ -42,7 +42,7 @@ PLAN = {
             "quick": [fs(160, 14, "C04"), fs(80, 14, "C04", wild=True), fsp(64, 12, "C04", rs="20,3")],
             "thorough": [fs(3000, 18, "C04", rs="20,1,2,3,7,64", timeout=5000), fs(1500, 18, "C04", wild=True, rs="20,1,2,3,7,64", timeout=5000)],
         },
-        "generated": ["Stfs/Gen/PosArith.lean (pkg/recovery/index.go, query.go, fetch.go)", "Stfs/Gen/Consts.lean"],
+        "generated": ["Stfs/Gen/Fingerprints.lean (source fingerprints of the functions the hand-written model mirrors)", "Stfs/Gen/PosArith.lean (pkg/recovery/index.go, query.go, fetch.go)", "Stfs/Gen/Consts.lean"],
         "trusted_base": BASE_TRUST,
         "assumptions": BASE_ASSUME,
     },
@@ -51,7 +51,7 @@ PLAN = {
             "quick": [fs(160, 14, "C05"), fs(80, 14, "C05", wild=True)],
             "thorough": [fs(3000, 18, "C05", rs="20,1,2,3,7,64", timeout=5000), fs(1500, 18, "C05", wild=True, rs="20,1,2,3,7,64", timeout=5000)],
         },
-        "generated": ["Stfs/Gen/OpenFlags.lean (pkg/tape/write.go OpenTapeWriteOnly, pkg/tape/manager.go GetWriter)"],
+        "generated": ["Stfs/Gen/Fingerprints.lean (source fingerprints of the functions the hand-written model mirrors)", "Stfs/Gen/OpenFlags.lean (pkg/tape/write.go OpenTapeWriteOnly, pkg/tape/manager.go GetWriter)"],
         "trusted_base": BASE_TRUST,
         "assumptions": BASE_ASSUME + ["os.OpenFile with O_APPEND appends at end of file; the tar writer emits whole 512-byte blocks (validated by the oracle's independent reader on every call)"],
     },
@@ -69,7 +69,7 @@ PLAN = {
             "quick": [fs(200, 18, "C12"), fs(120, 16, "C12", wild=True)],
             "thorough": [fs(3000, 22, "C12", timeout=5000), fs(2000, 20, "C12", wild=True, timeout=5000)],
         },
-        "generated": [],
+        "generated": ["Stfs/Gen/Fingerprints.lean (source fingerprints of the functions the hand-written model mirrors)"],
         "trusted_base": BASE_TRUST,
         "assumptions": BASE_ASSUME,
     },
@@ -78,7 +78,7 @@ PLAN = {
             "quick": [fs(200, 18, "C13"), fs(120, 16, "C13", wild=True)],
             "thorough": [fs(3000, 22, "C13", timeout=5000), fs(2000, 20, "C13", wild=True, timeout=5000)],
         },
-        "generated": [],
+        "generated": ["Stfs/Gen/Fingerprints.lean (source fingerprints of the functions the hand-written model mirrors)"],
         "trusted_base": BASE_TRUST,
         "assumptions": BASE_ASSUME,
     },
@@ -88,7 +88,7 @@ PLAN = {
             "thorough": [fs(2000, 20, "C01", rs="20,1,2,3,7,64", timeout=6000), fs(1000, 18, "C01", wild=True, timeout=6000), fs(1000, 24, "", mode="reopen", timeout=3000),
                          fsp(1440, 16, "C01", pipes=PIPES_ALL, rs="20,3", timeout=7000)],
         },
-        "generated": ["Stfs/Gen/PosArith.lean", "Stfs/Gen/Consts.lean (record keys, suffix tables)"],
+        "generated": ["Stfs/Gen/Fingerprints.lean (source fingerprints of the functions the hand-written model mirrors)", "Stfs/Gen/PosArith.lean", "Stfs/Gen/Consts.lean (record keys, suffix tables)"],
         "trusted_base": BASE_TRUST,
         "assumptions": BASE_ASSUME,
     },
@@ -97,7 +97,7 @@ PLAN = {
             "quick": [fs(120, 16, "C07"), fs(60, 14, "C07", wild=True)],
             "thorough": [fs(2000, 20, "C07", rs="20,1,2,3,7,64", timeout=6000), fs(1000, 18, "C07", wild=True, timeout=6000)],
         },
-        "generated": ["Stfs/Gen/PosArith.lean", "Stfs/Gen/Consts.lean"],
+        "generated": ["Stfs/Gen/Fingerprints.lean (source fingerprints of the functions the hand-written model mirrors)", "Stfs/Gen/PosArith.lean", "Stfs/Gen/Consts.lean"],
         "trusted_base": BASE_TRUST,
         "assumptions": BASE_ASSUME,
     },
@@ -107,7 +107,7 @@ PLAN = {
             "thorough": [fs(400, 12, "C06", mode="cut", rs="20,1,2,3,7", timeout=6000), fs(32, 8, "C06", mode="cut", rs="20,3", timeout=6000, extra=["-allcuts"])],
             "search": [fs(400, 12, "C06", mode="cut", rs="20,1,2,3,7", timeout=2000)],
         },
-        "generated": ["Stfs/Gen/PosArith.lean"],
+        "generated": ["Stfs/Gen/Fingerprints.lean (source fingerprints of the functions the hand-written model mirrors)", "Stfs/Gen/PosArith.lean"],
         "trusted_base": BASE_TRUST,
         "assumptions": BASE_ASSUME + ["the torn-tape model (Model/Cut.lean) is the tar-reader contract R1-R4; it is validated against the real archive/tar on real bytes (every byte offset of small tapes in the thorough tier), not proved", "termination of the real resynchronisation loop is observed under a watchdog on every cut, not proved (the model is a total function)"],
     },
@@ -116,7 +116,7 @@ PLAN = {
             "quick": [fs(240, 18, "C02"), fs(100, 16, "C02", wild=True), fsp(96, 14, "C02", rs="20,3")],
             "thorough": [fs(4000, 22, "C02", rs="20,1,3,7,64", timeout=6000), fs(2000, 20, "C02", wild=True, timeout=6000), fsp(1440, 16, "C02", pipes=PIPES_ALL, rs="20,3", timeout=7000)],
         },
-        "generated": ["Stfs/Gen/Guards.lean", "Stfs/Gen/Consts.lean"],
+        "generated": ["Stfs/Gen/Fingerprints.lean (source fingerprints of the functions the hand-written model mirrors)", "Stfs/Gen/Guards.lean", "Stfs/Gen/Consts.lean"],
         "trusted_base": BASE_TRUST,
         "assumptions": BASE_ASSUME + ["the reference filesystem Stfs/Spec/RefFs.lean is the specification (POSIX/afero rules; handles buffer until Sync/Close; no clock-driven timestamp updates on write)"],
     },
@@ -125,7 +125,7 @@ PLAN = {
             "quick": [fs(90, 24, "C16", mode="open16", timeout=2400)],
             "thorough": [fs(1500, 28, "C16", mode="open16", rs="20,1,3,7", timeout=7000)],
         },
-        "generated": ["Stfs/Gen/OpenFlags.lean", "Stfs/Gen/PosArith.lean"],
+        "generated": ["Stfs/Gen/Fingerprints.lean (source fingerprints of the functions the hand-written model mirrors)", "Stfs/Gen/OpenFlags.lean", "Stfs/Gen/PosArith.lean"],
         "trusted_base": BASE_TRUST,
         "assumptions": BASE_ASSUME + ["what opening over a torn tail does is predicted by the driver from the tar-reader contract (Model/Cut.lean); writes after a torn, unaligned tail are outside the model (finding F19)"],
     },
@@ -179,7 +179,7 @@ PLAN = {
             "quick": [fs(240, 18, "C17", mode="foreign", rs="20,3,1")],
             "thorough": [fs(2400, 24, "C17", mode="foreign", rs="20,1,2,3,7,64", timeout=7000)],
         },
-        "generated": ["Stfs/Gen/Consts.lean (IsRoot spellings, suffix tables, STFS record keys)", "Stfs/Gen/PosArith.lean"],
+        "generated": ["Stfs/Gen/Fingerprints.lean (source fingerprints of the functions the hand-written model mirrors)", "Stfs/Gen/Consts.lean (IsRoot spellings, suffix tables, STFS record keys)", "Stfs/Gen/PosArith.lean"],
         "trusted_base": BASE_TRUST,
         "assumptions": BASE_ASSUME + ["the foreign archive's items are handed to the model as read by the harness's own archive/tar reader (header fields, header blocks, stored size); afero.BasePathFs (the base-path view of the documented composition) is library code used as is by the oracle"],
     },
@@ -199,7 +199,7 @@ PLAN = {
             "quick": [fs(96, 40, "C14", mode="file", rs="20,3")],
             "thorough": [fs(2000, 48, "C14", mode="file", rs="20,1,3,7", timeout=7000), fsp(288, 40, "C14", pipes=PIPES_QUICK, mode="file", rs="20", timeout=7000)],
         },
-        "generated": ["Stfs/Gen/Guards.lean"],
+        "generated": ["Stfs/Gen/Fingerprints.lean (source fingerprints of the functions the hand-written model mirrors)", "Stfs/Gen/Guards.lean"],
         "trusted_base": BASE_TRUST,
         "assumptions": BASE_ASSUME + ["the write cache is the file-backed cache (os.File semantics); the memory cache (mattetti/filebuffer) is outside the model where it overwrites inside the buffer", "the reference is Spec/ByteFile.lean; end-of-file may be signalled together with the last bytes (allowed by io.Reader)"],
     },
